@@ -871,6 +871,16 @@ pub struct FormatOptions {
 	pub indent: u8,
 }
 
+/// Inclusive byte range to annotate for a parse error spanning `start..end` of an input of `len`
+/// bytes: the error's own extent, or for a zero-width error (missing token) the byte it points at.
+/// An error located at the end of input is attached to the last byte; `None` if the input is empty.
+fn error_annotation_range(start: usize, end: usize, len: usize) -> Option<(usize, usize)> {
+	let max = len.checked_sub(1)?;
+	let last = end.saturating_sub(1).max(start).min(max);
+	let first = start.min(last);
+	Some((first, last))
+}
+
 #[allow(
 	clippy::result_large_err,
 	reason = "TODO: there should be an intermediate representation for such reports"
@@ -880,16 +890,19 @@ pub fn format(input: &str, opts: &FormatOptions) -> Result<String, SnippetBuilde
 	if !errors.is_empty() {
 		let mut builder = hi_doc::SnippetBuilder::new(input);
 		for error in errors {
-			builder
-				.error(hi_doc::Text::fragment(
-					format!("{:?}", error.error),
-					Formatting::default(),
-				))
-				.range(
-					error.range.start().into()
-						..=(usize::from(error.range.end()) - 1).max(error.range.start().into()),
-				)
-				.build();
+			let annotation = builder.error(hi_doc::Text::fragment(
+				format!("{:?}", error.error),
+				Formatting::default(),
+			));
+			match error_annotation_range(
+				error.range.start().into(),
+				error.range.end().into(),
+				input.len(),
+			) {
+				Some((first, last)) => annotation.range(first..=last).build(),
+				// Nothing to point at in an empty input
+				None => annotation.build(),
+			}
 		}
 		// let snippet = builder.build();
 		return Err(builder);
